@@ -182,7 +182,8 @@ def _gc_next(tr, n):
 
 
 KERNEL_TRANSLATION = {
-    "calls": {"Vector::sum": "Vector_sum", "binomialCoeff": "binomialCoeff", "hardware_concurrency": "hardware_concurrency"},
+    "calls": {"Vector::sum": "Vector_sum", "binomialCoeff": "binomialCoeff", "hardware_concurrency": "hardware_concurrency",
+              "omp_get_thread_num": "omp_get_thread_num", "omp_get_num_threads": "omp_get_num_threads"},
     "object_ctors": {"n_aryGrayCodeCounter": _gc_ctor},
     "stmt_calls": {"n_aryGrayCodeCounter::set_offset_max": _gc_set_offset_max},
     "ptr_calls": {"n_aryGrayCodeCounter::get": _gc_get},
@@ -288,6 +289,9 @@ GC_CALLEES = {
                        requires=[f"forall(lambda k: 0 - {INT32_MAX} <= VSUMN(v, k) and VSUMN(v, k) <= {INT32_MAX}, 0, len(v) + 1)"],
                        ensures=["result == VSUMN(v, len(v))"]),
     "hardware_concurrency": dict(params=[], returns="Int", ensures=["0 <= result", "result <= 4294967295"]),
+    # OpenMP: which thread runs an iteration, and how many threads the runtime granted, are arbitrary (schedule-dependent)
+    "omp_get_thread_num": dict(params=[], returns="Int", ensures=["0 <= result", "result <= 2147483647"]),
+    "omp_get_num_threads": dict(params=[], returns="Int", ensures=["1 <= result", "result <= 2147483647"]),
     "binomialCoeff": dict(params=BINOMIAL["params"], returns="Int", requires=BINOMIAL["requires"], ensures=["result == C(n, k)"]),
     "binomialCoeff64": dict(params=BINOMIAL64["params"], returns="Int", requires=BINOMIAL64["requires"], ensures=["result == C(n, k)"]),
     # GC_ctor / GC_set_offset_max / GC_next: derived from the verified method contracts (contracts/C04_gray.py:KERNEL_CALLEES)
@@ -500,7 +504,9 @@ LAPLACE = dict(
     ghost_after=SUFFIX["ghost_after"],
 )
 # thread_results has `concurrency` rows of len(cols) entries: row job_idx is in bounds
-LAPLACE["ghost"]["loop[3.2].before"] = ["use('mul_le', job_idx + 1, len(cols), concurrency, len(cols))"]
+LAPLACE["ghost"]["loop[3.2].before"] = ["use('mul_le', job_idx + 1, len(cols), concurrency, len(cols))",
+                                        # C11: parallel iterations write disjoint rows (row index = job index, for every schedule)
+                                        "check(job_idx_uint == job_idx)"]
 LAPLACE["ghost"]["loop[3.3.2].before"] = ["use('mul_le', job_idx + 1, len(cols), concurrency, len(cols))"]
 LAPLACE["ghost"]["loop[4.0].start"] = ["use('mul_le', job_idx + 1, len(cols), concurrency, len(cols))"]
 LAPLACE["loops"]["3.3"] = dict(invariant=SUFFIX["loops"]["4.2"]["invariant"] + ["job_idx_uint == job_idx"])
